@@ -142,11 +142,24 @@ func checkMainBucketDeletes(c *Ctx, rule string) {
 			if !isSrc || !strings.HasSuffix(nm, ".Delete") {
 				continue
 			}
-			key := valueDesc(call.Call.Args[0])
-			if !main[key] {
+			keys := []string{valueDesc(call.Call.Args[0])}
+			for _, kv := range p.rangeFieldValues(call.Call.Args[0]) {
+				keys = append(keys, valueDesc(kv)) // a loop over a literal list of keys
+			}
+			key := ""
+			for _, k := range keys {
+				if main[k] {
+					n++
+					if key != "" {
+						key += "+"
+					}
+					key += strings.TrimPrefix(k, "waddrmgr.")
+				}
+			}
+			if key == "" {
 				continue
 			}
-			n++
+			key = "waddrmgr." + key
 			// the receiver's provenance (flow-sensitive for a captured, reassigned bucket variable)
 			buckets := map[string]bool{}
 			for _, o := range bucketOrigins(p, call) {
@@ -764,13 +777,15 @@ func checkPendingDerivationsHaveAccounts(c *Ctx, rule string) {
 	}
 	reachesLoad := p.reachingCall(load)
 	var decs []*ssa.Call
-	for _, ci := range callsOf(ul) {
-		call, ok := ci.(*ssa.Call)
-		if !ok || calleeShort(&call.Call) != "Decrypt" || len(call.Call.Args) == 0 {
-			continue
-		}
-		if tn, f, _, okf := fieldOf(stripConv(call.Call.Args[len(call.Call.Args)-1])); okf && tn == "accountInfo" && f == "acctKeyEncrypted" {
-			decs = append(decs, call)
+	for _, part := range p.regionOf(ul) {
+		for _, ci := range callsOf(part) {
+			call, ok := ci.(*ssa.Call)
+			if !ok || calleeShort(&call.Call) != "Decrypt" || len(call.Call.Args) == 0 {
+				continue
+			}
+			if tn, f, _, okf := fieldOf(stripConv(call.Call.Args[len(call.Call.Args)-1])); okf && tn == "accountInfo" && f == "acctKeyEncrypted" {
+				decs = append(decs, call)
+			}
 		}
 	}
 	c.Floor(rule, "account-key decryptions in Unlock", len(decs), 1)
@@ -805,15 +820,19 @@ func checkPendingDerivationsHaveAccounts(c *Ctx, rule string) {
 		}
 	}
 	for _, dec := range decs {
-		preloaded := false
-		for _, l := range loopsOf(ul) {
-			if l.Kind == "for" || !strings.Contains(l.Over, "deriveOnUnlock") || !l.containsInstr(reachesLoad) {
-				continue
+		// the preload loop runs to completion before the decryption: in the same function, or — when the steps of Unlock
+		// have been extracted — before the call (chain) that leads to it
+		preloaded := p.precededInRegion(ul, dec, func(f *ssa.Function, at ssa.Instruction) bool {
+			for _, l := range loopsOf(f) {
+				if l.Kind == "for" || !strings.Contains(l.Over, "deriveOnUnlock") || !l.containsInstr(reachesLoad) {
+					continue
+				}
+				if l.Header.Dominates(at.Block()) && !l.Blocks[at.Block()] {
+					return true
+				}
 			}
-			if l.Header.Dominates(dec.Block()) && !l.Blocks[dec.Block()] {
-				preloaded = true
-			}
-		}
+			return false
+		}, 0)
 		c.Check(rule, "pending-derivations-have-cached-accounts", dec.Pos(), preloaded || (evictionsSafe && nEvict > 0),
 			"Unlock decrypts the private keys of cached accounts only, but does not first load the accounts of the addresses queued for derive-on-unlock, and accounts can be evicted from the cache without dropping their queued addresses: the queued derivation then runs without a private account key and the correct passphrase fails (nil private key) instead of unlocking")
 	}
@@ -1109,6 +1128,15 @@ func checkMirrorStoresOnOwnBranch(c *Ctx, rule string) {
 			if v == ssa.Value(flag) {
 				return true
 			}
+			if fa, ok := v.(*ssa.FieldAddr); ok {
+				for _, u := range usesOf(fa) {
+					if ld, ok := u.(*ssa.UnOp); ok {
+						if vals := p.boundFieldStores(ld); len(vals) == 1 && stripConv(vals[0]) == ssa.Value(flag) {
+							return true
+						}
+					}
+				}
+			}
 			if fv, ok := v.(*ssa.FreeVar); ok {
 				r := freeVarRoot(fv)
 				if r == ssa.Value(flag) {
@@ -1124,7 +1152,7 @@ func checkMirrorStoresOnOwnBranch(c *Ctx, rule string) {
 			}
 			return false
 		}
-		for _, fn := range Closures(top) {
+		for _, fn := range p.regionOf(top) {
 			for _, b := range fn.Blocks {
 				for _, ins := range b.Instrs {
 					st, ok := ins.(*ssa.Store)
@@ -1520,6 +1548,32 @@ func checkImportAddressIDAgreesWithConstructor(c *Ctx, rule string) {
 				}
 			}
 		}
+		// the same dispatch spelled as a table of per-type builder functions
+		for _, tl := range p.tableLookupsIn(fn) {
+			for _, e := range tl.Entries {
+				cst, ok := e.Key.(*ssa.Const)
+				if !ok {
+					continue
+				}
+				nm, ok := cst.Type().(*types.Named)
+				if !ok || nm.Obj().Name() != "AddressType" {
+					continue
+				}
+				name := strings.TrimPrefix(valueDesc(cst), "waddrmgr.")
+				if out[name] == nil {
+					out[name] = map[string]bool{}
+				}
+				if g := fnValueOf(e.Val); g != nil {
+					for _, f := range Closures(g) {
+						for _, ci := range callsOf(f) {
+							if vocab[calleeShort(ci.Common())] {
+								out[name][calleeShort(ci.Common())] = true
+							}
+						}
+					}
+				}
+			}
+		}
 		return out
 	}
 	ia, ca := arms(imp), arms(ctor)
@@ -1571,7 +1625,7 @@ func checkNextIndexMirrorIsLoopVariable(c *Ctx, rule string) {
 			c.Unresolved(rule, "child-index derivation in "+fnn)
 			continue
 		}
-		for _, fn := range Closures(top) {
+		for _, fn := range p.regionOf(top) {
 			for _, b := range fn.Blocks {
 				for _, ins := range b.Instrs {
 					st, ok := ins.(*ssa.Store)
@@ -1646,4 +1700,137 @@ func checkMigrationRefusalBeforeWrites(c *Ctx, rule string) {
 		}
 	}
 	c.Floor(rule, "data-dependent refusals in waddrmgr migrations", n, 1)
+}
+
+// checkPendingQueueOnlyDrainedByUnlock: addresses issued or derived while the manager is locked wait in
+// ScopedKeyManager.deriveOnUnlock for their private keys. The queue may only grow (append) — entries leave it in
+// Manager.Unlock, after their key has been derived. Anything else that resets or shortens it (e.g. a "hygiene" wipe in
+// lock(), which Unlock's own failure paths run) silently drops the pending derivations: after the next successful
+// unlock those addresses have no private key although the wallet is unlocked.
+func checkPendingQueueOnlyDrainedByUnlock(c *Ctx, rule string) {
+	p := c.P
+	ul := p.Func("waddrmgr", "Manager", "Unlock")
+	if ul == nil {
+		c.Unresolved(rule, "Manager.Unlock")
+		return
+	}
+	n := 0
+	for _, fn := range p.FuncsIn("waddrmgr") {
+		for _, b := range fn.Blocks {
+			for _, ins := range b.Instrs {
+				st, ok := ins.(*ssa.Store)
+				if !ok {
+					continue
+				}
+				fa, ok := st.Addr.(*ssa.FieldAddr)
+				if !ok {
+					continue
+				}
+				if tn, f := fieldAddrName(fa); tn != "ScopedKeyManager" || f != "deriveOnUnlock" {
+					continue
+				}
+				n++
+				grows := false
+				for _, o := range (&Slicer{P: p}).Origins(st.Val) {
+					if call, ok := o.(*ssa.Call); ok && calleeShort(&call.Call) == "append" {
+						grows = true
+					}
+				}
+				inUnlock := p.inRegion(ul, outermost(fn))
+				c.Check(rule, "pending-derivation-queue-only-drained-by-Unlock:"+fnName(fn), st.Pos(), grows || inUnlock,
+					fnName(fn)+" resets or shortens ScopedKeyManager.deriveOnUnlock outside Manager.Unlock: addresses issued while locked lose their pending private-key derivation (a failed unlock attempt runs lock(), so one wrong passphrase is enough)")
+			}
+		}
+	}
+	c.Floor(rule, "stores to the derive-on-unlock queue", n, 4)
+}
+
+// checkClearTextAccessorsReturnCopies: the address objects cache decrypted material (private key bytes, script bytes)
+// in fields that lock() zeroes IN PLACE. A function that returns such a field itself hands the caller an alias of the
+// cache: the caller's copy turns to zeroes at the next lock, and a caller that modifies or wipes what it received
+// corrupts what every later call returns ("imported scripts are returned unchanged", keys re-derive identically).
+func checkClearTextAccessorsReturnCopies(c *Ctx, rule string) {
+	p := c.P
+	holders := map[string]bool{}
+	for _, h := range inferHolders(p) {
+		holders[h] = true
+	}
+	n := 0
+	for _, fn := range p.FuncsIn("waddrmgr") {
+		if fn.Signature.Results().Len() == 0 {
+			continue
+		}
+		for _, b := range fn.Blocks {
+			r, ok := b.Instrs[len(b.Instrs)-1].(*ssa.Return)
+			if !ok {
+				continue
+			}
+			for i := range r.Results {
+				sl, ok := r.Results[i].Type().Underlying().(*types.Slice)
+				if !ok {
+					continue
+				}
+				if bt, ok := sl.Elem().Underlying().(*types.Basic); !ok || bt.Kind() != types.Uint8 {
+					continue
+				}
+				v := stripConv(effectiveResult(r, i))
+				tn, f, _, okf := fieldOf(v)
+				if !okf || !holders[tn+"."+f] {
+					continue
+				}
+				n++
+				c.Check(rule, "clear-text-cache-not-returned-itself:"+fnName(fn)+"."+f, r.Pos(), false,
+					fnName(fn)+" returns the cached clear-text buffer "+tn+"."+f+" itself instead of a copy: lock() zeroes it under the caller, and a caller writing to it changes what later calls return")
+			}
+		}
+	}
+	// positive control: the accessors that do copy
+	nCopy := 0
+	for _, fn := range p.FuncsIn("waddrmgr") {
+		for _, call := range callsNamed(fn, "copy") {
+			if len(call.Call.Args) == 2 {
+				if tn, f, _, ok := fieldOf(stripConv(call.Call.Args[1])); ok && holders[tn+"."+f] {
+					nCopy++
+				}
+			}
+		}
+	}
+	c.Floor(rule, "accessors copying a clear-text cache field out", nCopy, 2)
+	_ = n
+}
+
+// checkAddrTypeFollowsBranch: an account can use different address formats on its two branches (BIP49: nested P2WPKH
+// external, native P2WPKH change). Whoever asks for "the account's address type" must say which branch it means with a
+// value that depends on the branch at hand — a parameter, or the comparison of the path's branch with the internal
+// branch constant. A constant answer (always external) builds the wrong script for every change address of such a
+// scope: the address is watched / stored under a script nobody pays to, and recovery misses those payments.
+func checkAddrTypeFollowsBranch(c *Ctx, rule string) {
+	p := c.P
+	n := 0
+	for _, fn := range p.FuncsIn("waddrmgr") {
+		for _, call := range callsNamed(fn, "accountAddrType") {
+			n++
+			arg := call.Call.Args[len(call.Call.Args)-1]
+			ok := false
+			why := "a constant"
+			if _, isConst := stripConv(arg).(*ssa.Const); !isConst {
+				why = "a value that does not depend on the branch"
+				for _, o := range (&Slicer{P: p, ThroughBinOp: true, ThroughFieldsOfAllocs: true}).Origins(arg) {
+					switch x := o.(type) {
+					case *ssa.Parameter:
+						if isBoolType(x.Type()) {
+							ok = true
+						}
+					default:
+						if _, f, _, okf := fieldOf(o); okf && f == "Branch" {
+							ok = true
+						}
+					}
+				}
+			}
+			c.Check(rule, "address-type-asked-for-the-branch-at-hand:"+fnName(fn), call.Pos(), ok,
+				fnName(fn)+" asks for the account's address type with "+why+" as the branch flag: for scopes whose change addresses use another format (BIP49) the managed address is built with the wrong script, so those addresses are never matched against the chain")
+		}
+	}
+	c.Floor(rule, "address-type lookups", n, 3)
 }
